@@ -257,6 +257,9 @@ structure State where
   env : Env := []
   stack : List Frame := []
   host : Host := {}
+  /-- set when a step executed an operation whose *value* the model does not determine
+  (`random_int`, the decimal text of a float): the run's observable behaviour is then not comparable -/
+  unmodelled : Bool := false
   deriving Repr
 
 /-- How a run ends (`ProgKont`), or why it cannot continue. -/
@@ -396,7 +399,8 @@ def step (c : Comp) (st : State) : StepResult :=
       | none => .done (.stuck .primShape) { st with stack := rest }
       | some hargs =>
         let (host, out) := hostOp role hargs st.host
-        let st := { st with stack := rest, host }
+        let isOpaque := role == "random_int" || role == "float32_to_string" || role == "float64_to_string"
+        let st := { st with stack := rest, host, unmodelled := st.unmodelled || isOpaque }
         match out with
         | .ret v => .next (.retSem (ofHV v)) st
         | .call i cargs =>
